@@ -14,10 +14,15 @@ scratch_root = os.environ.get("VERIF_SCRATCH", "/var/tmp/verif-scratch.%d" % os.
 fails = 0
 ran = 0
 env = dict(os.environ, GOFLAGS="-mod=mod", GOPROXY="off", GOSUMDB="off", GOTOOLCHAIN="local")
-for case in corpus:
+shard = os.environ.get("VERIF_SHARD", "")  # "i/n": run every n-th case starting at i
+for idx, case in enumerate(corpus):
     name = case["name"]
     if sel and not any(s in name for s in sel):
         continue
+    if shard:
+        si, sn = shard.split("/")
+        if idx % int(sn) != int(si):
+            continue
     ran += 1
     d = os.path.join(scratch_root, "r")
     shutil.rmtree(scratch_root, ignore_errors=True)
